@@ -246,7 +246,7 @@ func c15Oracle(c *fw.Ctx, w *vs.World, name string, prm c15Params, st *c15State)
 // A Ping that was withheld must fail; one that returns nil must have had its
 // own payload sent before it returned (pongs left over from earlier pings —
 // duplicates, late answers — must not satisfy a later Ping).
-func c15SeqSetup(k connCfg, script string, reader string) func(c *fw.Ctx, name string) explore.Setup {
+func c15SeqSetup(k connCfg, script string, reader string, preEnded bool) func(c *fw.Ctx, name string) explore.Setup {
 	return func(c *fw.Ctx, name string) explore.Setup {
 		return func(w *vs.World) func(bool) {
 			m := len(script)
@@ -257,6 +257,9 @@ func c15SeqSetup(k connCfg, script string, reader string) func(c *fw.Ctx, name s
 			sentTick := make([]int, m)
 			payloads := make([]string, m)
 			tick := 0
+			// preEnded: before the scripted Pings the caller makes one Ping with a context that is
+			// already over (it fails; unless that closed the connection, nothing else has changed)
+			started, base, preClosed := !preEnded, 0, false
 			w.GoHarness("main", true, func() {
 				conn := mkConn(p, k)
 				bg := vctx.Background()
@@ -280,16 +283,19 @@ func c15SeqSetup(k connCfg, script string, reader string) func(c *fw.Ctx, name s
 					for i := 0; i < m; i++ {
 						var pl []byte
 						if !p.WaitOut(fmt.Sprintf("ping%d", i+1), func(out []byte) bool {
+							if !started {
+								return false
+							}
 							n := 0
 							for _, f := range connFrames(out) {
 								if f.Opcode == frame.OpPing {
-									if n == i {
+									if n == base+i {
 										pl = f.Payload
 									}
 									n++
 								}
 							}
-							return n > i
+							return n > base+i
 						}) {
 							return
 						}
@@ -323,6 +329,19 @@ func c15SeqSetup(k connCfg, script string, reader string) func(c *fw.Ctx, name s
 					}
 				})
 				w.GoHarness("pinger", true, func() {
+					if preEnded {
+						ended, cancel := vctx.WithCancel(bg)
+						cancel()
+						conn.Ping(ended)
+						vs.Quiesce()
+						preClosed = p.Closed
+						for _, f := range connFrames(p.Out) {
+							if f.Opcode == frame.OpPing {
+								base++
+							}
+						}
+						vs.BlockOn(p.WObj(), "scripted-pings-begin", nil, func() { started = true })
+					}
 					for i := 0; i < m; i++ {
 						d := time.Second
 						if script[i] == 'L' || script[i] == 'c' {
@@ -359,7 +378,7 @@ func c15SeqSetup(k connCfg, script string, reader string) func(c *fw.Ctx, name s
 					return
 				}
 				sig := ""
-				healthy := true
+				healthy := !preClosed
 				for i := 0; i < m; i++ {
 					if !done[i] {
 						sig += "?"
@@ -410,7 +429,11 @@ func c15SeqScenarios(tier string) []scenario {
 		for _, rd := range []string{"loop", "closeread"} {
 			for si, sc := range scripts {
 				n := fmt.Sprintf("seq-%s/%s/%s", sc, rd, k.String())
-				scs = append(scs, scenario{Name: n, Cfg: cfg, Setup: c15SeqSetup(k, sc, rd), Group: fmt.Sprintf("seq/%s/%s/%d", rd, k.String(), si%4)})
+				scs = append(scs, scenario{Name: n, Cfg: cfg, Setup: c15SeqSetup(k, sc, rd, false), Group: fmt.Sprintf("seq/%s/%s/%d", rd, k.String(), si%4)})
+			}
+			for _, sc := range []string{"a", "aa", "da", "wa"} {
+				n := fmt.Sprintf("seq-ended+%s/%s/%s", sc, rd, k.String())
+				scs = append(scs, scenario{Name: n, Cfg: cfg, Setup: c15SeqSetup(k, sc, rd, true), Group: fmt.Sprintf("seq-ended/%s/%s", rd, k.String())})
 			}
 		}
 	}
